@@ -77,6 +77,35 @@ func runOrder(hdr Header, c any, src string) CaseResult {
 			Expected: want, Got: got})
 		return res
 	}
+	// a property whose schema is absent (a nil *Schema, what {"properties":{"x":null}} unmarshals to) is still a
+	// property: it keeps its place in the order and is written as null
+	if len(props) >= 1 {
+		names := abs.Seq(cm["props"])
+		props2 := map[string]*jsonschema.Schema{}
+		for k, v := range props {
+			props2[k] = v
+		}
+		props2[abs.Str(names[0].(string))] = nil
+		if len(names) >= 3 {
+			props2[abs.Str(names[2].(string))] = nil
+		}
+		s2 := &jsonschema.Schema{Type: "object", Properties: props2, PropertyOrder: order}
+		res.Evals++
+		if b2, err := json.Marshal(s2); err != nil {
+			res.Failures = append(res.Failures, Failure{Kind: "order", Source: src, Abstract: c, Concrete: map[string]any{"schema": conc, "nil_valued": names[0]},
+				Expected: want, Got: err.Error()})
+			return res
+		} else {
+			var top2 map[string]json.RawMessage
+			json.Unmarshal(b2, &top2)
+			got2, _ := objectKeys(top2["properties"])
+			if !reflect.DeepEqual(got2, want) {
+				res.Failures = append(res.Failures, Failure{Kind: "order", Source: src, Abstract: c,
+					Concrete: map[string]any{"schema": conc, "nil_valued": names[0]}, Expected: want, Got: got2})
+				return res
+			}
+		}
+	}
 	if len(props) >= 2 {
 		// nested schema honours its own order
 		var keys []string
